@@ -1801,6 +1801,35 @@ fn random_submission(w: &mut World, out: &mut Out, rng: &mut Rng) -> bool {
 			None => false,
 		};
 	}
+	// a STEM transaction on an output that a transaction of the reorg cache spends which is no longer
+	// in the txpool (evicted): a later reorg replays the cached transaction into the txpool, and the
+	// stem transaction then conflicts with it
+	{
+		let pooled: Vec<Vec<TxKernel>> = w.pool.txpool.entries.iter().map(|e| e.tx.kernels().to_vec()).collect();
+		let spent = w.pool_spent();
+		let cached_only: Vec<Transaction> =
+			w.pool.reorg_cache.read().iter().filter(|e| !pooled.contains(&e.tx.kernels().to_vec())).map(|e| e.tx.clone()).collect();
+		let cands: Vec<usize> = cached_only
+			.iter()
+			.flat_map(|t| w.tx_ins(t))
+			.filter(|i| free.contains(i) && !spent.contains(i))
+			.collect();
+		if !cands.is_empty() && rng.chance(1, 3) {
+			let o = *rng.pick(&cands);
+			let fee = World::weight_of(1, 1) * FEE_BASE * rng.range(2, 6);
+			return match w.spend(&[o], 1, fee, None) {
+				Some(tx) => {
+					let t = w.add_tx(out, tx, vec![], "stem-conflicts-with-cached-evicted-tx");
+					let r = w.submit(out, t, src, true, true);
+					if r == "ok" {
+						w.stat("replay:stem-entry-conflicting-with-reorg-cache-admitted");
+					}
+					true
+				}
+				None => false,
+			};
+		}
+	}
 	let kind = if w.focus && rng.chance(3, 5) { rng.range(5, 41) } else { rng.below(100) };
 	let (tx, tags, label): (Option<Transaction>, Vec<String>, &str) = if kind < 5 {
 		// re-creates an existing commitment (same key, same value): one that is unspent at the
@@ -2494,6 +2523,108 @@ fn scenario_reorg_lower(work: &str, out: &mut Out, total: &mut BTreeMap<String, 
 	}
 }
 
+
+/// The reorg cache replays a transaction that conflicts with a STEM transaction.  The txpool goes
+/// over capacity and evicts its cheapest transaction X (X stays in the reorg cache); a block brings
+/// the pool back under capacity; a stem transaction S spending the same output as X is accepted
+/// into the stempool, next to an unrelated stem transaction U and a stem child V of a txpool
+/// output; a reorg (more work on a sibling of that block) runs `reconcile_block` and then
+/// `reconcile_reorg_cache` the way `block_accepted` does: X returns to the txpool, and every
+/// re-added entry reconciles the stempool - S must be gone, U and V must survive.  Variants: X in
+/// the middle of the cache (followed by an entry whose re-add fails as a duplicate) / X the last
+/// entry of the cache (evicted on arrival) / two conflicting stem transactions and an X whose
+/// replay itself fails (its input is spent on the new branch) / the new branch confirms X.
+fn scenario_reorg_replay_stem(work: &str, out: &mut Out, total: &mut BTreeMap<String, u64>, variant: usize) {
+	let name = format!("reorg-replay-stem-{}", variant);
+	let mut rng = Rng::new(120 + variant as u64);
+	let mut w = World::new(work, &name, Cfg { max_pool: 3, max_stem: 5, mine_w: 250 });
+	print_cfg(&w, out);
+	warm_up(&mut w, out, &mut rng, 12);
+	w.print_head(out);
+	w.obs(out, "start");
+	let fork_point = w.head;
+	let free = w.free_utxo();
+	if free.len() < 8 {
+		out.raw(&format!("#STAT scenario:{}=not-enough-outputs({})", name, free.len()));
+		return;
+	}
+	let w11 = World::weight_of(1, 1);
+	let mk = |w: &mut World, out: &mut Out, o: usize, rate: u64, label: &str| -> (usize, Transaction) {
+		let tx = w.spend(&[o], 1, w11 * FEE_BASE * rate, None).unwrap();
+		(w.add_tx(out, tx.clone(), vec![], label), tx)
+	};
+	let (ta, a) = mk(&mut w, out, free[0], 6, "replay:A");
+	let (tb, b) = mk(&mut w, out, free[1], 7, "replay:B");
+	let (tc, _c) = mk(&mut w, out, free[2], 8, "replay:C");
+	let (tx_, x) = mk(&mut w, out, free[3], 1, "replay:X-cheapest");
+	let (td, d) = mk(&mut w, out, free[4], 9, "replay:D-evicting");
+	w.submit(out, ta, TxSource::Broadcast, false, true);
+	w.submit(out, tb, TxSource::Broadcast, false, true);
+	w.submit(out, tc, TxSource::Broadcast, false, true);
+	if variant == 1 {
+		// X arrives last, over capacity: admitted and evicted at once - the last entry of the cache
+		w.submit(out, td, TxSource::Broadcast, false, true);
+		w.submit(out, tx_, TxSource::Broadcast, false, true);
+	} else {
+		w.submit(out, tx_, TxSource::Broadcast, false, true);
+		// 4 > max_pool_size = 3: the admission of D evicts the cheapest, X
+		w.submit(out, td, TxSource::Broadcast, false, true);
+	}
+	let x_evicted = !w.pool.txpool.entries.iter().any(|e| e.tx.kernels() == x.kernels());
+	let x_cached = w.pool.reorg_cache.read().iter().any(|e| e.tx.kernels() == x.kernels());
+	out.raw(&format!("#STAT scenario:{}:X-evicted={}:X-in-reorg-cache={}", name, x_evicted, x_cached));
+	// a block confirming A and B: the txpool is back under its capacity, the stem path is open
+	let m1 = match w.build_block(fork_point, 1, &[a.clone(), b.clone()]) {
+		Some(id) => id,
+		None => return,
+	};
+	w.deliver(out, m1);
+	// stem transactions: S on the output X spends, U unrelated, V a child of the pooled D
+	let (ts, _s) = mk(&mut w, out, free[3], 5, "replay:S-stem-conflicts-with-X");
+	let (tu, _u) = mk(&mut w, out, free[5], 5, "replay:U-stem-unrelated");
+	let od = w.tx_outs(&d)[0];
+	let (tv, _v) = mk(&mut w, out, od, 5, "replay:V-stem-child-of-D");
+	w.submit(out, ts, TxSource::PushApi, true, true);
+	w.submit(out, tu, TxSource::PushApi, true, true);
+	w.submit(out, tv, TxSource::PushApi, true, true);
+	if variant == 2 {
+		// a second stem transaction in conflict with the cache: a child of S (goes when S goes)
+		let os = w.tx_outs(&w.txs[ts].tx.clone())[0];
+		let (tw, _) = mk(&mut w, out, os, 5, "replay:W-stem-child-of-S");
+		w.submit(out, tw, TxSource::PushApi, true, true);
+	}
+	let stem_before = w.pool.stempool.entries.len();
+	// the competing branch: one block on the fork point with more work
+	let branch_txs: Vec<Transaction> = match variant {
+		// the new branch spends X's input itself: the replay of X fails, S goes with the block
+		2 => match w.spend(&[free[3]], 1, 11, None) {
+			Some(t) => vec![t],
+			None => vec![],
+		},
+		// the new branch confirms X: S conflicts with the chain
+		3 => vec![x.clone()],
+		_ => vec![],
+	};
+	if let Some(r) = w.build_block(fork_point, 10, &branch_txs) {
+		let res = w.deliver(out, r);
+		out.raw(&format!("#STAT scenario:{}:competing-block={}", name, res));
+	}
+	let x_back = w.pool.txpool.entries.iter().any(|e| e.tx.kernels() == x.kernels());
+	let stem_after = w.pool.stempool.entries.len();
+	out.raw(&format!(
+		"#STAT scenario:{}:X-back-in-txpool={}:stempool-before-reorg={}:after={}",
+		name, x_back, stem_before, stem_after
+	));
+	// the chain grows: a block from the mineable set, then an empty one
+	for _ in 0..2 {
+		let set = w.pool.prepare_mineable_transactions().unwrap_or_default();
+		let p = w.head;
+		if let Some(id) = w.build_block(p, 1, &set) {
+			w.deliver(out, id);
+		}
+	}
+	merge_stats(&w, total);
+}
 
 fn merge_stats(w: &World, total: &mut BTreeMap<String, u64>) {
 	for (k, v) in &w.stats {
@@ -4121,6 +4252,7 @@ fn run_history(
 	w.obs(out, "start");
 	let mut done = 0;
 	let mut tries = 0;
+	let mut replay_seen = 0u64;
 	while done < nops && tries < nops * 6 {
 		tries += 1;
 		w.default_form = match rng.below(20) {
@@ -4142,6 +4274,20 @@ fn run_history(
 			w.deliver_pending(out);
 			done += 1;
 			continue;
+		}
+		// a stem entry that conflicts with a transaction only the reorg cache still holds: a reorg soon
+		let conflicts = *w.stats.get("replay:stem-entry-conflicting-with-reorg-cache-admitted").unwrap_or(&0);
+		if conflicts > replay_seen && w.pending_bodies.is_empty() && rng.chance(1, 2) {
+			let stem_before = w.pool.stempool.entries.len();
+			if random_reorg(&mut w, out, rng) {
+				replay_seen = conflicts;
+				w.stat("replay:reorg-while-a-stem-entry-conflicts-with-the-reorg-cache");
+				if w.pool.stempool.entries.len() < stem_before {
+					w.stat("replay:reorg-while-a-stem-entry-conflicts-with-the-reorg-cache:stem-entries-dropped");
+				}
+				done += 1;
+				continue;
+			}
 		}
 		let k = if focus {
 			// 88% submissions, 6% blocks, 2% reorgs, 3% explicit evictions, 1% truncations
@@ -4234,6 +4380,9 @@ fn main() {
 		jobs.push(("header-gap".into(), Box::new(|w, o, t| scenario_header_gap(w, o, t))));
 		jobs.push(("degenerate".into(), Box::new(|w, o, t| scenario_degenerate(w, o, t))));
 		jobs.push(("stempool-reconcile".into(), Box::new(|w, o, t| scenario_stempool_reconcile(w, o, t))));
+		for v in 0..4 {
+			jobs.push((format!("reorg-replay-stem-{}", v), Box::new(move |w, o, t| scenario_reorg_replay_stem(w, o, t, v))));
+		}
 		let nrand = if thorough { 12 } else { 0 };
 		for part in 0..(if thorough { TREE_PARTS } else { 2 }) {
 			jobs.push((format!("evict-trees-{}", part), Box::new(move |w, o, t| scenario_evict_trees(w, o, t, part, nrand))));
